@@ -572,3 +572,36 @@ def check_firstvalue(ctx, fb, rule):
                            'under FirstFail the first VALUE wins even if a failure was saved before it (the old state '
                            'must only be compared with the value state itself)' % (stored, op, cmpv),
                            'instantiation: ' + f.full[:300])
+
+
+# ---------------------------------------------------------------------------------------------------------------------
+# R-INDEX: the callback registered for input I carries index I (ordered strategies: values land in their own slot)
+def check_callback_index(ctx, fb, rule):
+    """StaticCombinator::GetCallbackHelper<Index, Core> (the callback SetCore<Index> registers on input number Index):
+    on the ordered path — the element is taken from `callbacks` itself, the strategy stores values by index — the
+    element's type is CombinatorCallback<…, Index> for exactly this Index.  Looking the callback up by anything else
+    (the core type, say) compiles whenever two inputs have the same core type and makes the later input complete
+    through the earlier input's callback: its value lands in the wrong slot, its own slot stays empty."""
+    import re
+    n = 0
+    for f in fb.fn.values():
+        if f.n != 'GetCallbackHelper' or f.clsq != 'yaclib::when::StaticCombinator' or f.cfg is None or not f.fta:
+            continue
+        gets = [c for c in f.own_nodes() if c.get('cn') == 'std::get' and c.get('args')]
+        if len(gets) != 1:
+            ctx.broken('R-INDEX: GetCallbackHelper of %s: %d std::get calls' % (f.cls[:80], len(gets)))
+        op = f.sn(gets[0]['args'][0])
+        ordered = op is not None and op['k'] == 'MemberExpr' and op.get('mn') == 'callbacks'
+        if not ordered:
+            continue
+        key = 'R-INDEX StaticCombinator::GetCallbackHelper (ordered)'
+        m = re.search(r',\s*(\d+)>\s*&?\s*$', f.ret)
+        ctx.instance(rule, key + ' <%s> :: %s' % (f.fta[0], f.cls[:90]), None)
+        n += 1
+        if m is None:
+            ctx.broken('R-INDEX: callback type of %s not recognised (%s)' % (f.full[:80], f.ret[-60:]))
+        if m.group(1) != f.fta[0]:
+            ctx.report(rule, key, f.where, 'input number %s registers the callback that carries index %s: its value / '
+                       'Result is stored in slot %s and its own slot stays empty' % (f.fta[0], m.group(1), m.group(1)),
+                       'instantiation: ' + f.full[:300])
+    return n
